@@ -39,6 +39,13 @@ CHECKS = {
    note="Timers armed in the very millisecond of a clock refresh are not judged (either value is legitimate). Only the first request head is governed by the request timeout. No write timeout is claimed: a peer that stops reading before a response is flushed keeps the server writing.",
    technique="property-based testing over generated event times around exact timer deadlines under a paused (virtual) clock; invariants over time-stamped wire history",
    design_ref="DESIGN.md §5 C06"),
+ "C07": dict(
+   engine="pbt",
+   category="exploration",
+   text="Model-based: operation sequences over the public pair from h1::Payload::create(false) (feed_data of sizes 0/1/100/32767/32768/40000/random, feed_eof, set_error, sender drop, need_read with a counting I/O waker, reader poll with the same or a fresh counting waker, unread_data, reader drop) are executed against the real channel and a reference model (byte queue, eof, pending error, need_read flag) that is compared after every step: reader output (exact chunk bytes / Pending / error kind / clean end only after feed_eof), need_read's answer, and required wake-ups (reader woken by the next feed/eof/error/sender drop after a Pending poll; paused feeder woken once the reader drains below 32 KiB). Small-scope exhaustive phase: ALL 10^6 (quick, depth 6) / 10^8 (thorough, depth 8) sequences over a 10-letter alphabet, every prefix checked; random phase: 3*10^5..6*10^6 sequences of up to 60 ops with the full size menu.",
+   note="exhaustive: true is claimed only for the enumerated phase (fixed alphabet, fixed depth), recorded per phase in the evidence; the run as a whole is exploration. Spurious wake-ups are allowed. Sender operations after the body was closed only have to be safe. Trusts the 60-line reference model in harness/src/props/c07.rs.",
+   technique="stateful model-based property testing: small-scope exhaustive enumeration of operation sequences + proptest random sequences against a reference model",
+   design_ref="DESIGN.md §5 C07"),
  "C01": dict(
    engine="simnet",
    category="exploration",
